@@ -274,11 +274,47 @@ theorem certificate_sound_slack (B : Mat N N K) (hB : ∀ i j, B i j = B j i) (V
     ∀ x : Fin N → K, (Mat.toM V)ᵀ *ᵥ x = 0 → x ⬝ᵥ (Mat.toM B *ᵥ x) ≤ (Cert.minVec lam + εs) * (x ⬝ᵥ x) :=
   Cert.certTopEig_sound B hB V lam εs hc
 
-/-! Non-vacuity: a concrete instance meeting the hypotheses — three collinear points `0, 1, 2` (squared distances
-    `0,1,4`), `d = 1`: `B = [[1,0,−1],[0,0,0],[−1,0,1]]`, top eigenpair `(2, (1,0,−1)/√2)`; over `ℚ` we exhibit the
-    certificate on the exactly representable pair of `2·B`-free form by `decide`. -/
-example : Cert.certTopEig (K := Rat) (n := 2) (d := 1) (fun i j => if i = j then 1 else 0) (fun i _ => if i = 0 then 1 else 0)
-    (fun _ => 1) 0 0 0 = true := by decide +kernel
+/-! ### Non-vacuity: a concrete non-trivial instance meets the hypotheses of the theorems above
+
+Four points `1, 1, −1, −1` on a line (`δ = 0` inside the two pairs, `2` across), `d = 1`, over `ℚ`:
+`mdsPre δ = x xᵀ` with `x = (1,1,−1,−1)`, top eigenpair `lam = 4`, `v = (½,½,−½,−½)`, `s = 2`.
+The eigensolver contract `IsTopEig` is obtained from the certificate itself (`certificate_sound` + `decide`). -/
+
+def exX : Mat 4 1 Rat := fun i _ => if i.1 < 2 then 1 else -1
+def exδ : Fin 4 → Fin 4 → Rat := fun i j => if decide (i.1 < 2) = decide (j.1 < 2) then 0 else 2
+def exV : Mat 4 1 Rat := fun i _ => if i.1 < 2 then 1 / 2 else -(1 / 2)
+def exLam : Vec 1 Rat := fun _ => 4
+def exS : Vec 1 Rat := fun _ => 2
+
+theorem ex_isTopEig : IsTopEig (Mat.toM (mdsPre exδ)) (Mat.toM exV) exLam :=
+  certificate_sound (mdsPre exδ) (by decide +kernel) exV exLam (by decide +kernel)
+
+theorem ex_euclidean : ∀ i j, exδ i j * exδ i j = ∑ a, (exX i a - exX j a) * (exX i a - exX j a) := by
+  decide +kernel
+
+theorem ex_sqrt : ∀ j, exS j * exS j = clamp0 (exLam j) := by decide +kernel
+
+theorem ex_range : ∀ x : Fin 4 → Rat, (Mat.toM exV)ᵀ *ᵥ x = 0 → Mat.toM (mdsPre exδ) *ᵥ x = 0 := by
+  intro x hx
+  have hB : ∀ i j, mdsPre exδ i j = 4 * exV i 0 * exV j 0 := by decide +kernel
+  have h0 : ∑ j, exV j 0 * x j = 0 := by
+    have := congrFun hx 0
+    simpa [mulVec, dotProduct] using this
+  funext i
+  simp only [mulVec, dotProduct, Mat.toM_apply, hB, Pi.zero_apply]
+  rw [show (∑ j, 4 * exV i 0 * exV j 0 * x j) = 4 * exV i 0 * ∑ j, exV j 0 * x j by
+    rw [Finset.mul_sum]; exact Finset.sum_congr rfl fun j _ => by ring]
+  rw [h0, mul_zero]
+
+/-- the instance goes through `mds_exact_recovery`: the embedding `(1,1,−1,−1)` reproduces every distance -/
+example : ∀ i j, rowSqDist (post exV exS) i j = exδ i j * exδ i j :=
+  mds_exact_recovery exX exδ ex_euclidean exV exLam exS ex_isTopEig.toIsEigSystem ex_range ex_sqrt
+
+/-- … and through `mds_optimal` against a competitor (`Q = e₁`, `mu = 3`) -/
+example : frobSq (Mat.toM (mdsPre exδ) - Mat.toM (post exV exS) * (Mat.toM (post exV exS))ᵀ)
+    ≤ frobSq (Mat.toM (mdsPre exδ) - (Matrix.of fun (i : Fin 4) (_ : Fin 1) => if i = 0 then (1 : Rat) else 0)
+        * diagonal (fun _ : Fin 1 => (3 : Rat)) * (Matrix.of fun (i : Fin 4) (_ : Fin 1) => if i = 0 then (1 : Rat) else 0)ᵀ) :=
+  mds_optimal exδ exV exLam exS ex_isTopEig ex_sqrt _ (by decide +kernel) _ (by decide +kernel)
 
 example : mdsPre (K := Rat) (n := 3) (fun i j => ((i.1 : Rat) - (j.1 : Rat))) 0 2 = -1 := by decide +kernel
 
